@@ -26,7 +26,8 @@ VAR_KINDS = {
     "none": ["None", "0", "None"],
     "list": ["[1, 2]", "[1, 3]", "[]"],
     "tuple": ["(1, 2)", "(1, 3)", "()"],
-    "dict": ["{'k': 1}", "{'k': 2}", "{}"],
+    "dict": ["{'k': 1, 'j': 2}", "{'j': 2, 'k': 1}", "{'k': 2}"],
+    "relpath": ["pathlib.Path('data/raw.csv')", "pathlib.Path('data/other.csv')", "pathlib.Path('x')"],
     "path": ["PurePosixPath('/x/y')", "PurePosixPath('/x/z')", "PurePosixPath('a')"],
     "date": ["datetime.date(2020, 1, 2)", "datetime.date(2021, 1, 2)", "datetime.date(1999, 9, 9)"],
     "nested": ["{'a': [1, (2, 3)]}", "{'a': [1, (2, 4)]}", "{'a': []}"],
@@ -268,6 +269,8 @@ def render_fn(p, fid, ctx, prelude):
     lines.append("    # %s" % f["comment"])
     lines.append("    vlog.hit(%r)" % f["name"])
     lines.append("    r = [%r, %d%s]" % (f["name"], f["const"], "".join(", " + n for n, _ in f["params"])))
+    # a comprehension: its target is local to the function whatever the module defines under that name
+    lines.append("    r.append([cv * 2 for cv in (1, 2)])")
     for (vid, access) in f["reads"]:
         lines.append("    r.append(%s)" % ctx.var_expr(vid, access))
     if f.get("fail") and f["fail"].get("when") == "start":
@@ -320,7 +323,11 @@ def render_fn(p, fid, ctx, prelude):
             lines.append("        return (\"inner\", %d%s)" % (s["const"], extra))
             lines.append("    x%d = inner%d()" % (i, i))
         elif k == "nested_eval":
-            lines.append("    x%d = dds.eval(%s)" % (i, ctx.fn_expr(s["fn"], need_bare=True)))
+            if s.get("spelling") == "eval":
+                ctx.add("from dds import eval")
+                lines.append("    x%d = eval(%s)" % (i, ctx.fn_expr(s["fn"], need_bare=True)))
+            else:
+                lines.append("    x%d = dds.eval(%s)" % (i, ctx.fn_expr(s["fn"], need_bare=True)))
         elif k == "method":
             c = p["classes"][s["cls"]]
             lines.append("    x%d = %s(%s).%s()" % (i, ctx.cls_expr(s["cls"]), s["arg"], c["method"]))
@@ -363,7 +370,7 @@ def render_module(p, m):
             blocks.append(("cls", xid, render_cls(p, xid, ctx)))
         elif kind == "extra":
             blocks.append(("extra", xid, p["extras"][xid]))
-    head = ["# module %s" % m, "import datetime", "from pathlib import PurePosixPath", "import dds", "from vp import vlog"] + ctx.imports
+    head = ["# module %s" % m, "import datetime", "import pathlib", "from pathlib import PurePosixPath", "import dds", "from vp import vlog"] + [i for i in ctx.imports if i != "import pathlib"]
     text = "\n".join(head) + "\n\n" + "".join(l + "\n" for l in ctx.alias_assigns) + "".join(l + "\n" for l in prelude) + "\n"
     for kind, xid, t in blocks:
         text += t + "\n\n"
@@ -598,7 +605,9 @@ def _arg_line(s, ai):
 def e_add_extra(p, module, pos, tag):
     q = clone(p)
     xid = "extra_%s" % tag
-    q["extras"][xid] = "def unrelated_%s():\n    return %r\n\n\nUNRELATED_%s = 1\n" % (tag, tag, tag.upper())
+    # besides an unrelated function and variable, (re)define at module level the name that the functions use
+    # as a comprehension target: it is unrelated to them as well
+    q["extras"][xid] = "def unrelated_%s():\n    return %r\n\n\nUNRELATED_%s = 1\ncv = %d\n" % (tag, tag, tag.upper(), len(q["extras"]) + 5)
     order = q["order"][module]
     pos = max(0, min(len(order), pos))
     order.insert(pos, ("extra", xid))
